@@ -673,6 +673,19 @@ func (dr *vDriver) opInject(v *vaa.VAA) bool {
 		gsBefore = dr.sets[n-1]
 	}
 	ok := dr.do(op, func() { dr.p.handleInjection(dr.ctx, v) })
+	if ok {
+		st := dr.h.Steps[len(dr.h.Steps)-1]
+		signed := false
+		for _, o := range st.Outs {
+			if len(o) > 8 && o[:8] == "sendobs " {
+				signed = true
+			}
+		}
+		if signed && dr.lastObs != nil && hex.EncodeToString(dr.lastObs.Hash) != dg {
+			// C04: the digest is a function of the VAA's body fields alone - also for a VAA an operator injected (the digest the admin RPC reported to the operator)
+			dr.h.Mon = append(dr.h.Mon, "C04: the digest the node signed for an injected VAA differs from the digest of the VAA that was injected (every body field, the target chain included, is part of what is signed)")
+		}
+	}
 	dr.localGS[dg] = gsBefore
 	dr.localIdx[dg] = false
 	dr.sawLocal[dg] = true
